@@ -68,6 +68,7 @@ var expectedTables = anteTables{
 		"evmante.NewEthMempoolFeeDecorator",
 		"evmante.NewEthValidateBasicDecorator",
 		"evmante.NewEthSigVerificationDecorator",
+		"[len(options.AddressFetchers) > 0]NewAuthenticatedMempoolDecorator",
 		"evmante.NewEthAccountVerificationDecorator",
 		"evmante.NewCanTransferDecorator",
 		"evmante.NewEthGasConsumeDecorator",
@@ -246,10 +247,15 @@ func (w *chainWalker) stmts(list []ast.Stmt, cond string) {
 				}
 				continue
 			}
-			if cl, ok := st.Rhs[0].(*ast.CompositeLit); ok && len(cl.Elts) == 0 && st.Tok == token.DEFINE {
-				// decorators := []sdk.AnteDecorator{}
+			if cl, ok := st.Rhs[0].(*ast.CompositeLit); ok && st.Tok == token.DEFINE && strings.HasSuffix(render(w.fset, cl.Type), "AnteDecorator") {
+				// decorators := []sdk.AnteDecorator{ d1, d2, ... }
 				if w.slice == "" {
 					w.slice = lhs
+				}
+				if lhs == w.slice {
+					for _, e := range cl.Elts {
+						w.chain = append(w.chain, cond+w.decoratorName(e))
+					}
 				}
 				continue
 			}
